@@ -474,6 +474,30 @@ func c04Type5Request(p *Prog, r *Report, R1 string) {
 				}
 			}
 			if !assigned {
+				// or through an in-module helper called on this path that stores the field
+				for _, b := range fn.Blocks {
+					for _, in := range b.Instrs {
+						c, ok := in.(*ssa.Call)
+						if !ok || !dominates(c, rp.Ret) {
+							continue
+						}
+						g := c.Call.StaticCallee()
+						if g == nil || !InModule(g) || g.Blocks == nil {
+							continue
+						}
+						for _, gb := range g.Blocks {
+							for _, gin := range gb.Instrs {
+								if st, ok := gin.(*ssa.Store); ok {
+									if fa, ok := st.Addr.(*ssa.FieldAddr); ok && fieldName(deref(fa.X.Type()), fa.Field) == "BlindedReq" {
+										assigned = true
+									}
+								}
+							}
+						}
+					}
+				}
+			}
+			if !assigned {
 				probs = append(probs, "this accepting path does not assign .BlindedReq: a reused object keeps the elements of the message it held before")
 			}
 		}
